@@ -543,7 +543,16 @@ func (c *Ctx) ImpliedAlts(f Fact) [][]Fact {
 	for i := range alts {
 		v, ok := boolConst(alts[i].Val)
 		if !ok {
-			return nil
+			// the helper hands on another boolean as its result: the result has the outcome exactly when that value has
+			if alts[i].Val == nil || alts[i].Val.V == nil {
+				return nil
+			}
+			if b, isB := alts[i].Val.V.Type().Underlying().(*types.Basic); !isB || b.Kind() != types.Bool {
+				return nil
+			}
+			cx, cv := normFact(alts[i].Val, f.Val)
+			out = append(out, append(append([]Fact{}, alts[i].Facts...), Fact{Cond: cx, Val: cv, If: f.If}))
+			continue
 		}
 		if v == f.Val {
 			out = append(out, alts[i].Facts)
